@@ -862,3 +862,66 @@ func (bp *boundProver) equalLenContainers(i, operand ssa.Value, at *ssa.BasicBlo
 	})
 	return found
 }
+
+// checkNoClearingOfSharedStorage: rule C07.R16.
+//
+// Rest and Range of the large map (and array) hand out sub-slices of the same backing array, so two container
+// values can cover the same cells with different lengths. The library functions that shrink a slice in place
+// (slices.Delete, DeleteFunc, Compact, CompactFunc) and the builtin clear zero the cells they vacate: applied to
+// the storage field of a container of package object they leave a nil key/value pair (or nil element) inside
+// every other value that still covers those cells, and the next Inspect / Cmp / iteration on it is a nil
+// pointer dereference.
+func (c *Ctx) checkNoClearingOfSharedStorage(r *Report, rule string) {
+	fromField := func(v ssa.Value) string {
+		for i := 0; i < 6; i++ {
+			switch x := v.(type) {
+			case *ssa.UnOp:
+				v = x.X
+			case *ssa.Slice:
+				v = x.X
+			case *ssa.FieldAddr:
+				if n := namedStruct(x.X.Type()); n != nil && n.Obj().Pkg() != nil && shortPkg(n.Obj().Pkg()) == "object" {
+					return n.Obj().Name() + "." + n.Underlying().(*types.Struct).Field(x.Field).Name()
+				}
+				return ""
+			default:
+				return ""
+			}
+		}
+		return ""
+	}
+	n := 0
+	for _, fn := range c.ModuleSSAFuncs() {
+		if fn.Pkg == nil || shortPkg(fn.Pkg.Pkg) != "object" {
+			continue
+		}
+		eachInstr(fn, func(in ssa.Instruction) {
+			call, ok := in.(*ssa.Call)
+			if !ok || len(call.Common().Args) == 0 {
+				return
+			}
+			name := ""
+			if bi, ok := call.Common().Value.(*ssa.Builtin); ok && bi.Name() == "clear" {
+				name = "clear"
+			} else if obj := calleeObj(call); obj != nil && obj.Pkg() != nil && obj.Pkg().Path() == "slices" {
+				switch obj.Name() {
+				case "Delete", "DeleteFunc", "Compact", "CompactFunc":
+					name = "slices." + obj.Name()
+				}
+			}
+			if name == "" {
+				return
+			}
+			f := fromField(call.Common().Args[0])
+			if f == "" {
+				return
+			}
+			n++
+			r.Fail(rule, ssaFuncName(fn), name+" on container storage "+f, c.Pos(call.Pos()),
+				name+" zeroes the cells it vacates in the backing array of "+f+"; rest(m), m[a:b] and iteration hand out values that share that array with their own length, so they end in a nil pair/element and the next use of them dereferences nil (m has 7 pairs; r = rest(m); del(m[1]); r panics)")
+		})
+	}
+	if n == 0 {
+		r.OkWhy(rule, "object", "no cell-clearing library call on container storage", "", "deletions copy down and reslice: vacated cells keep their old content, which the other values covering them still own")
+	}
+}
